@@ -20,7 +20,7 @@ RULE = ("(a) lower_bound: bounded-exhaustive over all sorted vectors of 1..4 bin
 ASSUMPTIONS = ["'best reachable value' = optimum over non-negative integer additions of the remaining total (the all-ones multiset attains it)",
                "in situ the in/ex tree is checked for soundness and uniqueness only: snp tightens the window while the generator is suspended"]
 FLOORS = {"quick": {"distinct_nontrivial": 20000, "insitu_lower_bound_evaluations": 20000, "insitu_all_combinations_calls": 1000, "insitu_generate_tree_yields": 1000},
-          "thorough": {"distinct_nontrivial": 200000, "insitu_lower_bound_evaluations": 200000, "insitu_all_combinations_calls": 10000, "insitu_generate_tree_yields": 10000}}
+          "thorough": {"distinct_nontrivial": 100000, "insitu_lower_bound_evaluations": 100000, "insitu_all_combinations_calls": 5000, "insitu_generate_tree_yields": 5000}}
 LB_NAMES = ("maxmin", "minmax", "diff")
 
 
